@@ -60,6 +60,25 @@ fn arm(idx: usize) {
 }
 fn disarm() { CASE_DEADLINE_MS.store(0, Ordering::SeqCst); }
 
+/// which instance of the model mirrors the tree: does `StatefulTokenizer::reset` re-create a result path that an
+/// analysis took and did not give back (`self.top_path.get_or_insert_with(Vec::new).clear()`, the repair of the C10
+/// defect) or does it only clear an existing one (`self.top_path.as_mut().map(|p| p.clear())`)?  Comments are
+/// ignored; an unreadable source counts as `cur`.
+fn impl_reset_variant() -> &'static str {
+    static V: std::sync::OnceLock<&'static str> = std::sync::OnceLock::new();
+    *V.get_or_init(|| {
+        let p = format!("{}/src/analysis/stateful_tokenizer.rs", crate::c07::repo_sudachi_dir());
+        match std::fs::read_to_string(p) {
+            Ok(s) => {
+                let code: String = s.lines().map(|l| l.split("//").next().unwrap_or("")).collect::<Vec<_>>().join("\n");
+                let code: String = code.chars().filter(|c| !c.is_whitespace()).collect();
+                if code.contains("top_path.get_or_insert_with(Vec::new)") { "fix" } else { "cur" }
+            }
+            Err(_) => "cur",
+        }
+    })
+}
+
 pub const PER_WORLD: usize = 20;
 pub const DIRECTED: usize = 17;
 
@@ -287,15 +306,36 @@ fn special_world(kind: usize, tag: &str) -> Result<Special, String> {
     let wd = Workdir::new(tag);
     let pos = default_pos();
     match kind {
-        // D6-shaped: `東` declares the A-split 東京都/京, longer than itself: splitting panics after the path was taken
+        // PANIC after the path was taken.  (The D6-shaped split `東` -> 東京都/京 used here until D6 was repaired
+        // in the repository - 03842e3 - no longer panics.)  D8-shaped, `U<n>` flavour: a USER dictionary row declares
+        // its dictionary form as user word n; the raw id (dictionary bits included) is used as an index into the
+        // user lexicon and word-info parsing PANICS (range start index out of range) inside resolve_best_path
         0 => {
-            let mut rows = vec![Row::simple("東京都", 0, 0, 100, NOUN), Row::simple("京", 0, 0, 100, NOUN), Row::simple("東", 0, 0, 100, NOUN)];
-            rows[2].mode = 'B';
-            rows[2].split_a = "0/1".into();
+            let mut rows = vec![];
+            for i in 0..40 {
+                let c = "あいうえおかきくけこ".chars().nth(i % 10).unwrap().to_string();
+                rows.push(Row::simple(&c.repeat(1 + i / 10), 0, 0, 100, NOUN));
+            }
             let sys = build_system(csv_of(&rows, &pos).as_bytes(), b"1 1\n0 0 0\n")?;
             let cfg = config_json(&wd, &[], &[simple_oov_json(0, 0, 5000)], &[], &[]);
-            let dic = load(&cfg, sys, vec![])?;
-            Ok(Special { wd, dic, desc: "special:longer-split".into(), has_default: false, words: vec!["東京都".into(), "京".into()], bad_text: Some("東".into()) })
+            let base = load(&cfg, sys.clone(), vec![])?;
+            for k in 0..4 {
+                let mut r = Row::simple("東京", 0, 0, 10, NOUN);
+                r.dic_form = format!("U{}", k);
+                let mut urows = vec![r];
+                for j in 0..3 { urows.push(Row::simple(&format!("都{}", j), 0, 0, 10, NOUN)); }
+                let ub = match build_user(&base, csv_of(&urows, &pos).as_bytes()) { Ok(b) => b, Err(_) => continue };
+                let dic = match load(&cfg, sys.clone(), vec![ub]) { Ok(d) => d, Err(_) => continue };
+                let hit = {
+                    let mut tok = StatefulTokenizer::new(&dic, Mode::C);
+                    let r = catch(|| { tok.reset().push_str("東京"); tok.do_tokenize() });
+                    r.is_err() && tok.verif_state().2.is_none()
+                };
+                if hit {
+                    return Ok(Special { wd, dic, desc: format!("special:user-dicform-U{}", k), has_default: false, words: vec!["あ".into(), "都1".into(), "ああ".into()], bad_text: Some("東京".into()) });
+                }
+            }
+            Err("no user dictionary form U<n> produced a panic after the path was taken".into())
         }
         // plain dictionary with the default input plugin (normalisation expands) and splits
         1 => {
@@ -360,12 +400,18 @@ struct Ctx<'a> {
     has_default: bool,
     words: Vec<String>,
     bad_text: Option<String>,
+    /// `bad_text` fails AFTER resolve_best_path took the result path (Err or panic): such analyses are generated more
+    /// often and are often followed by an empty text (the one continuation on which `top_path = None` is visible)
+    after_take: bool,
     world: Option<&'a World>,
 }
 
 fn gen_analyse_text(rng: &mut Rng, c: &Ctx, thorough: bool) -> (String, &'static str) {
-    let k = rng.below(100);
     let word = |rng: &mut Rng| -> String { if c.words.is_empty() { "あ".to_string() } else { rng.pick(&c.words).clone() } };
+    if c.after_take && rng.chance(1, 6) {
+        if let Some(b) = &c.bad_text { return (format!("{}{}", if rng.chance(1, 2) { word(rng) } else { String::new() }, b), "bad"); }
+    }
+    let k = rng.below(100);
     let short = |rng: &mut Rng, n: usize| -> String {
         match c.world {
             Some(w) => gen_text(rng, w, n),
@@ -421,11 +467,16 @@ fn gen_history(rng: &mut Rng, c: &Ctx, thorough: bool) -> Vec<Op> {
             }
             9 if nlists > 0 => ops.push(Op::Collect(rng.below(nlists))),
             _ => {
-                let (t, _) = gen_analyse_text(rng, c, thorough);
+                let (t, kind) = gen_analyse_text(rng, c, thorough);
                 ops.push(Op::Analyse(t));
                 if rng.chance(3, 5) {
                     if nlists == 0 || rng.chance(1, 5) { ops.push(Op::NewList); nlists += 1; }
                     ops.push(Op::Collect(rng.below(nlists)));
+                }
+                if c.after_take && kind == "bad" && rng.chance(1, 2) {
+                    // the path is taken and not given back: an empty text is the continuation that shows it
+                    ops.push(Op::Analyse(String::new()));
+                    if nlists > 0 && rng.chance(2, 3) { ops.push(Op::Collect(rng.below(nlists))); }
                 }
             }
         }
@@ -445,9 +496,9 @@ fn directed(idx: usize) -> (usize, usize, Vec<Op>) {
         // the repository's own test `stateful_tokenizer::empty`: fresh tokenizer, empty text
         0 => (1, 0, vec![a(""), Op::NewList, Op::Collect(0)]),
         // failure AFTER the path was taken, then an empty text: Ok, but top_path is None -> collect panics
-        1 => (0, 1, vec![a("東京都"), Op::NewList, Op::Collect(0), a("東"), a(""), Op::Collect(0)]),
+        1 => (0, 1, vec![a("あ都1"), Op::NewList, Op::Collect(0), a("東京"), a(""), Op::Collect(0)]),
         // same failure, then a non-empty text: recovers
-        2 => (0, 1, vec![a("東"), a("京"), Op::NewList, Op::Collect(0)]),
+        2 => (0, 1, vec![a("東京"), a("都1あ"), Op::NewList, Op::Collect(0)]),
         // longer then shorter then empty then longer, one reused list
         3 => (1, 0, vec![Op::NewList, a("東京都あああ東京都東京あ"), Op::Collect(0), a("あ"), Op::Collect(0), a(""), Op::Collect(0), a("東京都あ"), Op::Collect(0)]),
         // over-long raw text, then a normal one
@@ -494,6 +545,10 @@ fn exec(run: &mut Run, idx: usize, c: &Ctx, mode0: usize, ops: &[Op], desc: &str
     let mut shrink = false;
     let mut fail_then_ok = false;
     let mut last_failed = false;
+    // failures after resolve_best_path took the result path (top_path = None afterwards)
+    let mut after_take = false;
+    let mut after_take_then_empty = false;
+    let mut after_take_then_nonempty = false;
     let mut hist: Vec<String> = vec![];
     for op in ops {
         match op {
@@ -537,11 +592,19 @@ fn exec(run: &mut Run, idx: usize, c: &Ctx, mode0: usize, ops: &[Op], desc: &str
                     Some(f) => f,
                     None => { run.bump("analysis-dropped(fresh panics before the path is taken)"); continue; }
                 };
+                let path_was_taken = tok.verif_state().2.is_none();
                 let r = catch(|| {
                     tok.reset().push_str(text);
                     tok.do_tokenize()
                 });
                 let outcome = match &r { Ok(Ok(())) => "ok".to_string(), Ok(Err(e)) => out_class(e), Err(_) => "PANIC".to_string() };
+                if outcome != "ok" && tok.verif_state().2.is_none() && (outcome == "PANIC" || outcome == "err:Other") {
+                    after_take = true;
+                    run.bump(&format!("analysis:failed-after-path-taken:{}", outcome));
+                }
+                if path_was_taken && outcome == "ok" {
+                    if fresh.norm_empty { after_take_then_empty = true; } else { after_take_then_nonempty = true; }
+                }
                 let shown: String = if text.chars().count() > 24 { format!("{}…({} bytes)", text.chars().take(12).collect::<String>(), text.len()) } else { text.clone() };
                 hist.push(format!("analyse({:?})={}", shown, outcome));
                 encs.push(fresh.enc.clone());
@@ -651,7 +714,10 @@ fn exec(run: &mut Run, idx: usize, c: &Ctx, mode0: usize, ops: &[Op], desc: &str
     run.bump(&format!("analyses:{}", analyses.min(8)));
     if shrink { run.bump("history:longer-then-shorter"); }
     if fail_then_ok { run.bump("history:failure-then-ok"); }
-    let payload = format!("mode={} ops={}", mode0, encs.join("/"));
+    if after_take { run.bump("history:failure-after-path-taken"); }
+    if after_take_then_empty { run.bump("history:path-taken-then-empty-text-ok"); }
+    if after_take_then_nonempty { run.bump("history:path-taken-then-nonempty-text-ok"); }
+    let payload = format!("mode={} reset_variant={} ops={}", mode0, impl_reset_variant(), encs.join("/"));
     let answer = format!("ok {}", states.join("|"));
     run.case(idx, "hist", &payload, &answer, analyses >= 2 && (shrink || fail_then_ok));
     let mut seen = std::collections::HashSet::new();
@@ -666,12 +732,15 @@ pub fn run(run: &mut Run) {
     run.rule = "histories of 3..12 calls {set_mode, set_subset, analyse(empty/short/longer/long/over-long raw/over-long after \
 normalisation/disconnecting/failing after the path was taken), collect into a reused, cross-used or new list, new list, empty \
 clone, clear, on-demand split_into, lookup (also failing)} + a final analyse+collect on ONE tokenizer over random worlds (with and \
-without fallback OOV provider) and three directed dictionaries; every analysis is compared with a fresh tokenizer (outcome, all input \
+without fallback OOV provider) and four directed dictionaries (two of them fail AFTER the result path was taken: user dictionary \
+with a dictionary-form id -> Err, with a U<n> dictionary form -> panic; there every 6th analysis is such a failure and every \
+second one is followed by an empty text); every analysis is compared with a fresh tokenizer (outcome, all input \
 tables, lattice rows below size, morphemes after collect); non-trivial = at least 2 analyses with a longer-then-shorter pair or a \
 failure followed by a success; distinct by line".into();
     let n = run.opts.count;
     let thorough = run.opts.thorough;
     start_watchdog(run.opts.out.clone(), run.opts.seed, run.prop.clone());
+    run.extra.insert("model_instance_reset_variant".into(), serde_json::json!(impl_reset_variant()));
     let mut cur_world: Option<(usize, Result<World, String>)> = None;
     let mut specials: Vec<Option<Result<Special, String>>> = vec![None, None, None, None];
     for idx in 0..n {
@@ -688,7 +757,7 @@ failure followed by a success; distinct by line".into();
                 Err(e) => { run.bump(&format!("special-world-error:{}", e.chars().take(60).collect::<String>())); continue; }
             };
             // in the user-dictionary world the failure itself depends on which fields are parsed: pin the request to all fields
-            let c = Ctx { must: if kind == 3 { 0x3ff } else { 0 }, dic: &sp.dic, has_default: sp.has_default, words: sp.words.clone(), bad_text: sp.bad_text.clone(), world: None };
+            let c = Ctx { must: if kind == 3 || kind == 0 { 0x3ff } else { 0 }, dic: &sp.dic, has_default: sp.has_default, words: sp.words.clone(), bad_text: sp.bad_text.clone(), after_take: kind == 3 || kind == 0, world: None };
             let (mode0, ops) = if idx < DIRECTED { let d = directed(idx); (d.1, d.2) } else { (rng.below(3), gen_history(&mut rng, &c, thorough)) };
             run.bump(&sp.desc.clone());
             let desc = sp.desc.clone();
@@ -710,7 +779,7 @@ failure followed by a success; distinct by line".into();
         };
         let mut words: Vec<String> = w.lex.rows.iter().map(|r| r.surface.clone()).collect();
         words.truncate(12);
-        let c = Ctx { must: if w.has_path_rewrite { 0xC } else { 0 }, dic: &w.dic, has_default: w.input_kinds.contains(&"default"), words, bad_text: None, world: Some(w) };
+        let c = Ctx { must: if w.has_path_rewrite { 0xC } else { 0 }, dic: &w.dic, has_default: w.input_kinds.contains(&"default"), words, bad_text: None, after_take: false, world: Some(w) };
         let ops = gen_history(&mut rng, &c, thorough);
         for d in &w.desc { run.bump(d); }
         run.bump(if w.has_fallback { "world:fallback" } else { "world:no-fallback" });
